@@ -10,15 +10,15 @@ import (
 type Format int
 
 const (
-	FV0 Format = iota // plain v0 messages
-	FV1               // plain v1 messages
-	FV1C              // v1 compressed wrappers, relative inner offsets
-	FV0C              // v0 compressed wrappers, absolute inner offsets
-	FV2               // record batches, contiguous
-	FV2H              // record batches with compaction holes
-	FCtrl             // record batches, committed transactions with their markers, an unknown control type
-	FMix              // legacy prefix followed by record batches
-	FTxn              // transactional: several producer ids, aborted and committed transactions
+	FV0   Format = iota // plain v0 messages
+	FV1                 // plain v1 messages
+	FV1C                // v1 compressed wrappers, relative inner offsets
+	FV0C                // v0 compressed wrappers, absolute inner offsets
+	FV2                 // record batches, contiguous
+	FV2H                // record batches with compaction holes
+	FCtrl               // record batches, committed transactions with their markers, an unknown control type
+	FMix                // legacy prefix followed by record batches
+	FTxn                // transactional: several producer ids, aborted and committed transactions
 	NFormats
 )
 
